@@ -133,7 +133,11 @@ func (f *File) For(prop string) []Finding {
 // Match reports whether a violation (sig, entry, input) is covered by finding k.
 func (k Finding) Match(sig, entry, input string) bool {
 	if k.Sig != sig {
-		return false
+		// a finding known for the untagged signature is known in every tagged sub-workload too (not the converse)
+		i := strings.LastIndexByte(sig, '@')
+		if i < 0 || k.ByInput || k.Sig != sig[:i] {
+			return false
+		}
 	}
 	if k.ByInput {
 		return k.Witness == input && k.Entry == entry
